@@ -155,6 +155,8 @@ class ProbeNode(BaseNode):
         self.delay_override = None  # {input name: delay} -> returned by init_delays (C10: "through init_delays/params")
 
     def init_delays(self, rng=None, graph_state=None):
+        if getattr(self, "delay_incomplete", False):
+            return dict(self.delay_override or {})  # an incomplete dictionary is documented as allowed: unnamed connections keep their distribution's delay
         delays = super().init_delays(rng, graph_state)
         if self.delay_override:
             delays.update(self.delay_override)
